@@ -188,12 +188,12 @@ class C08(Driver):
             if "WARNING: ThreadSanitizer:" in line or "ERROR: AddressSanitizer:" in line:
                 typ = line.split("Sanitizer:")[1].strip().split(" (")[0].split(" on ")[0].strip().replace(" ", "-")
                 for l2 in lines[i + 1:i + 40]:
-                    if "/repo/src/" in l2 and " in " not in l2 and "#" in l2:
+                    if "/src/core/" in l2 and " in " not in l2 and "#" in l2:
                         toks = l2.split()
                         if len(toks) > 2:
                             fn = toks[2] if toks[1].startswith("0x") is False else toks[3]
                         break
-                    if "/repo/src/" in l2 and " in " in l2:
+                    if "/src/core/" in l2 and " in " in l2:
                         fn = l2.split(" in ")[1].split()[0]
                         break
                 break
